@@ -115,6 +115,9 @@ def step (_ : Unit) (line : String) : Unit × String :=
           let f := ptBlock (rest.take 8); let t := ptBlock ((rest.drop 8).take 8)
           -- the visitor's lambda: d := -(d + p) twice, i.e. from - to; only squares are used
           s!"ok {showFloat (GN.polSDistance val v (f.1 - t.1) (f.2.1 - t.2.1) (f.2.2 - t.2.2))}"
+        | "polzangle", val :: v :: rest =>
+          let f := ptBlock (rest.take 8); let t := ptBlock ((rest.drop 8).take 8)
+          s!"ok {showFloat (GN.polZAngle fuel val v (f.1 - t.1) (f.2.1 - t.2.1) (f.2.2 - t.2.2))}"
         | "testlin", _ :: pols => s!"flag {if GN.testLin pols then 1 else 0}"
         | _, _ => "bad-op"
       ((), r)
